@@ -794,6 +794,65 @@ fn failing_pulls() -> (u64, u64, Vec<Violation>) {
     (n, failing, out)
 }
 
+/// `for` (and the operators that call a function per element) visits the elements and nothing
+/// else: whatever the iterator's body - the user's or the built-in stage's - declares while it is
+/// pulled stays its own. Every source kind x every consumer that runs user code per element x
+/// every spelling the sources' bodies use for a local, bound by the caller to a run-time value
+/// that the per-element code reads: the visit is the sequence, each time next to the caller's value
+fn callers_names_during_visits() -> (u64, Vec<Violation>) {
+    const DEFS: &str = "iota := (start: int, end: int) -> () -> (bool, int) { i := mut start; return () -> (bool, int) { val := *i; if (val < end) { i += 1; return (true, val); } return (false, val); } };
+gen := () -> () -> (bool, int) { k := mut 0; return () -> (bool, int) { res := *k; con := res < 3; value := res * 2; element := value; result := (con, value); k += 1; return result } };";
+    // (source, its elements)
+    const SOURCES: &[(&str, &str)] = &[
+        ("[1, 2, 3]~", "1, 2, 3"),
+        ("iota(0, 3)", "0, 1, 2"),
+        ("gen()", "0, 2, 4"),
+        ("[1, 2, 3]~ @ (v: int) -> int { return v + 10 }", "11, 12, 13"),
+        ("iota(0, 3) @ (v: int) -> int { val := v + 10; return val }", "10, 11, 12"),
+        ("[1, 2, 3]~ ? (v: int) -> bool { return v > 1 }", "2, 3"),
+        ("gen() ? (v: int) -> bool { res := v > 1; return res }", "2, 4"),
+        ("[1, \"a\", 3]~ ? int", "1, 3"),
+        ("[1, 2, 3]~ $] ~", "1, 2, 3"),
+        ("(gen() $])~", "0, 2, 4"),
+    ];
+    const NAMES: &[&str] = &["val", "i", "k", "res", "con", "value", "element", "result", "v", "func", "mapper", "default", "predicate", "function", "iterator", "iter", "start", "end", "acc0", "array", "index", "len"];
+    // (consumer, program tail over SRC / N, the visit it must report given ELEMS)
+    const CONSUMERS: &[(&str, &str)] = &[
+        ("for", "acc := mut [any] []; for x in SRC { acc += [(x, N)] }; r := *acc;"),
+        ("for, body in a block", "acc := mut [any] []; for x in SRC { { y := N; acc += [(x, y)] } }; r := *acc;"),
+        ("for in a function", "h := () -> [any] { acc := mut [any] []; for x in SRC { acc += [(x, N)] }; return *acc }; r := h();"),
+        ("nested for", "acc := mut [any] []; for w in [0]~ { for x in SRC { acc += [(x, N)] } }; r := *acc;"),
+        ("map then collect", "r := SRC @ (q: any) -> any { return (q, N) } $];"),
+        ("reduce", "m := mut [any] []; SRC $ 0 (a: int, q: any) -> int { m += [(q, N)]; return a }; r := *m;"),
+        ("filter then collect", "m := mut [any] []; SRC ? (q: any) -> bool { m += [(q, N)]; return true } $]; r := *m;"),
+        ("partition", "m := mut [any] []; SRC \\ (q: any) -> bool { m += [(q, N)]; return true }; r := *m;"),
+        ("while over it()", "acc := mut [any] []; it0 := SRC; loop { (c0, x) := it0(); if !c0 { break }; acc += [(x, N)] }; r := *acc;"),
+    ];
+    let mut n = 0u64;
+    let mut out = Vec::new();
+    for (src, elems) in SOURCES {
+        let want: String = elems.split(", ").map(|e| format!("({e}, 100)")).collect::<Vec<_>>().join(", ");
+        for (cname, tail) in CONSUMERS {
+            for name in NAMES {
+                let text = format!("{DEFS}\nbase := mut 100; {name} := *base;\n{}\n(r == [{want}], {name} == 100, r)", tail.replace("SRC", src).replace('N', name));
+                n += 1;
+                let o = core::run_text(&text, true, core::QUICK_FUEL);
+                let shown = match &o {
+                    core::Outcome::Value(v) => crate::val::canon(v),
+                    other => other.tag(),
+                };
+                if !shown.starts_with("(true, true, ") {
+                    out.push(Violation {
+                        sig: format!("C11|visit-next-to-callers-name|{cname}|source={}|name={name}", src.chars().take(24).collect::<String>().replace('|', "/")),
+                        detail: json!({"kind": "program", "stdlib": true, "text": text, "expected": format!("(true, true, [{want}])"), "observed": shown}),
+                    });
+                }
+            }
+        }
+    }
+    (n, out)
+}
+
 pub fn run(tier: &str) -> i32 {
     let thorough = tier == "thorough";
     let mut report = Report::new("C11", tier);
@@ -893,6 +952,8 @@ pub fn run(tier: &str) -> i32 {
     let failing = core::on_big_stack(failing_pulls);
     assert!(failing.1 * 4 > failing.0, "failing-pull family: too few failing cases ({} of {})", failing.1, failing.0);
     report.violations(failing.2);
+    let visits = core::on_big_stack(callers_names_during_visits);
+    report.violations(visits.1);
     report.violations(folds.1);
     let Acc { programs, events, outcomes, violations } = acc;
     report.violations(violations);
@@ -903,6 +964,7 @@ pub fn run(tier: &str) -> i32 {
         "programs": programs,
         "failing_pull_cases (7 sources x 4 upstream stages x 10 consumers, operator form against its definition as a loop over it(); result and log)": failing.0,
         "failing_pull_cases_in_which_a_pull_fails": failing.1,
+        "visits_next_to_callers_names (10 sources x 9 per-element consumers x 22 spellings of the sources' own locals, bound by the caller to a run-time value)": visits.0,
         "float_and_string_fold_cases (sequences of length 0..=4 over 9 floats + 3 long ones x 4 routes, bit-exact against the left fold)": folds.0,
         "reference_events_compared": events,
         "distinct_outcomes": outcomes.len(),
